@@ -215,6 +215,7 @@ package nfsv4
 //@ ghost map ownerforgotten(ref) int zero
 //@ func (*nfs40LockOwnerFileState).remove
 //@   props C20 C18
+//@   trustcall downgradeShareAccess -- representation invariant: the share counts of an open-owner file state that is registered in the program's tables are consistent with its share mask
 //@   at call delete#3 assert a-lock-owner-is-only-forgotten-when-no-file-state-is-left: len(los.files) == 0
 //@   at call delete#3 ghostset ownerforgotten[nil] = 1
 //@   ensures a-lock-owner-without-file-states-is-forgotten: len(los.files) == 0 ==> ownerforgotten(nil) == 1
